@@ -126,7 +126,7 @@ def check(pid, tier, seed):
             terms.append((i, t))
     corr_fail = set(); ncorr = 0; clog = ""
     if terms and bok and has_proofs:
-        corr_fail, ncorr, clog = run_coq_cases(pid, P.COQ_HEADER, terms, P.CHECK_FN)
+        corr_fail, ncorr, clog = run_coq_cases(pid, P.COQ_HEADER, terms, P.CHECK_FN, shard=getattr(P, "SHARD", 150))
         if -1 in corr_fail:
             problems.append({"kind": "correspondence-run", "what": clog[-1500:]})
             corr_fail.discard(-1)
